@@ -336,6 +336,16 @@ func vspecCovered(x int64, start int64, c int64, size int64) bool {
 //@   nooverflow
 //@   modifies s.bytes, s.msgs
 
+// ---------------------------------------------------------------- ghost log of the packets a connection sends
+// For every connection (service) and MQTT packet type t, the ghost field n<t> counts the packets of wire type t that
+// writeMessage accepted into the outgoing ring, and id<t> is the packet identifier of the last one. They are defined by
+// writeMessage's contract (ghostdef: assumed at its call sites, there is nothing in the body to check) and frame-checked
+// everywhere else: a function that does not list them cannot have sent such a packet.
+//@ define vdefWT(msg)
+//@   is int(message.Type(ifaceval(msg, *message.header).mtypeflags[0] >> 4))
+//@ define vdefWID(msg)
+//@   is message.vspecPacketID(ifaceval(msg, *message.header).packetID)
+
 // writeMessage: under the connection's write mutex, either encode straight into the region reserved at the producer
 // cursor and commit exactly the encoded bytes, or (reservation wraps) encode into the private scratch buffer and
 // write exactly those bytes. Other writers are excluded by wmu for the whole reserve..commit sequence; before the
@@ -358,4 +368,71 @@ func vspecCovered(x int64, start int64, c int64, size int64) bool {
 //@   atcall (*buffer).Write requires[C17:write-what-was-encoded] len(p) == gfield(0, "encn") && arr(p) == gfield(0, "encarr") && off(p) == gfield(0, "encoff")
 //@   ensures[C17:none] svc.out == nil ==> err != nil
 //@   ensures[C17:count] err == nil ==> m == gfield(0, "encn")
-//@   modifies svc.out.pseq.gate, svc.out.pwait, svc.out.pseq.cursor, elems(svc.out.buf), gfield(svc.out.ccond, "bcast"), svc.outtmp, elems(svc.outtmp), fields(addr(svc.outStat)), heap("F.message.header.remlen"), heap("F.message.header.dirty"), heap("F.message.header.packetID"), message.gPacketID, heap("GF.encn"), heap("GF.encarr"), heap("GF.encoff"), heap("GF.encAt"), heap("GF.clock"), heap("GF.lockedAt"), gfield(addr(svc.wmu), "mlockedAt"), heap("GF.readAt"), heap("GF.doneAt"), heap("GF.doneSeen")
+//@   ensures[ghostdef-log] gfield(svc, "n3") == old(gfield(svc, "n3")) + ite(err == nil && old(vdefWT(msg)) == 3, 1, 0) && gfield(svc, "id3") == ite(err == nil && old(vdefWT(msg)) == 3, old(vdefWID(msg)), old(gfield(svc, "id3")))
+//@   ensures[ghostdef-log] gfield(svc, "n4") == old(gfield(svc, "n4")) + ite(err == nil && old(vdefWT(msg)) == 4, 1, 0) && gfield(svc, "id4") == ite(err == nil && old(vdefWT(msg)) == 4, old(vdefWID(msg)), old(gfield(svc, "id4")))
+//@   ensures[ghostdef-log] gfield(svc, "n5") == old(gfield(svc, "n5")) + ite(err == nil && old(vdefWT(msg)) == 5, 1, 0) && gfield(svc, "id5") == ite(err == nil && old(vdefWT(msg)) == 5, old(vdefWID(msg)), old(gfield(svc, "id5")))
+//@   ensures[ghostdef-log] gfield(svc, "n6") == old(gfield(svc, "n6")) + ite(err == nil && old(vdefWT(msg)) == 6, 1, 0) && gfield(svc, "id6") == ite(err == nil && old(vdefWT(msg)) == 6, old(vdefWID(msg)), old(gfield(svc, "id6")))
+//@   ensures[ghostdef-log] gfield(svc, "n7") == old(gfield(svc, "n7")) + ite(err == nil && old(vdefWT(msg)) == 7, 1, 0) && gfield(svc, "id7") == ite(err == nil && old(vdefWT(msg)) == 7, old(vdefWID(msg)), old(gfield(svc, "id7")))
+//@   ensures[ghostdef-log] gfield(svc, "n8") == old(gfield(svc, "n8")) + ite(err == nil && old(vdefWT(msg)) == 8, 1, 0) && gfield(svc, "id8") == ite(err == nil && old(vdefWT(msg)) == 8, old(vdefWID(msg)), old(gfield(svc, "id8")))
+//@   ensures[ghostdef-log] gfield(svc, "n9") == old(gfield(svc, "n9")) + ite(err == nil && old(vdefWT(msg)) == 9, 1, 0) && gfield(svc, "id9") == ite(err == nil && old(vdefWT(msg)) == 9, old(vdefWID(msg)), old(gfield(svc, "id9")))
+//@   ensures[ghostdef-log] gfield(svc, "n10") == old(gfield(svc, "n10")) + ite(err == nil && old(vdefWT(msg)) == 10, 1, 0) && gfield(svc, "id10") == ite(err == nil && old(vdefWT(msg)) == 10, old(vdefWID(msg)), old(gfield(svc, "id10")))
+//@   ensures[ghostdef-log] gfield(svc, "n11") == old(gfield(svc, "n11")) + ite(err == nil && old(vdefWT(msg)) == 11, 1, 0) && gfield(svc, "id11") == ite(err == nil && old(vdefWT(msg)) == 11, old(vdefWID(msg)), old(gfield(svc, "id11")))
+//@   ensures[ghostdef-log] gfield(svc, "n12") == old(gfield(svc, "n12")) + ite(err == nil && old(vdefWT(msg)) == 12, 1, 0) && gfield(svc, "id12") == ite(err == nil && old(vdefWT(msg)) == 12, old(vdefWID(msg)), old(gfield(svc, "id12")))
+//@   ensures[ghostdef-log] gfield(svc, "n13") == old(gfield(svc, "n13")) + ite(err == nil && old(vdefWT(msg)) == 13, 1, 0) && gfield(svc, "id13") == ite(err == nil && old(vdefWT(msg)) == 13, old(vdefWID(msg)), old(gfield(svc, "id13")))
+//@   modifies svc.out.pseq.gate, svc.out.pwait, svc.out.pseq.cursor, elems(svc.out.buf), gfield(svc.out.ccond, "bcast"), svc.outtmp, elems(svc.outtmp), fields(addr(svc.outStat)), ifaceval(msg, *message.header).remlen, ifaceval(msg, *message.header).dirty, ifaceval(msg, *message.header).packetID, message.gPacketID, heap("GF.encn"), heap("GF.encarr"), heap("GF.encoff"), heap("GF.encAt"), heap("GF.clock"), heap("GF.lockedAt"), gfield(addr(svc.wmu), "mlockedAt"), heap("GF.readAt"), heap("GF.doneAt"), heap("GF.doneSeen"), gfield(svc, "n3"), gfield(svc, "id3"), gfield(svc, "n4"), gfield(svc, "id4"), gfield(svc, "n5"), gfield(svc, "id5"), gfield(svc, "n6"), gfield(svc, "id6"), gfield(svc, "n7"), gfield(svc, "id7"), gfield(svc, "n8"), gfield(svc, "id8"), gfield(svc, "n9"), gfield(svc, "id9"), gfield(svc, "n10"), gfield(svc, "id10"), gfield(svc, "n11"), gfield(svc, "id11"), gfield(svc, "n12"), gfield(svc, "id12"), gfield(svc, "n13"), gfield(svc, "id13")
+
+// ================================================================ protocol handlers (service/process.go)
+// Assumed: the package-level logger is initialised (logging.Get never returns nil) and never reassigned.
+//@ axiom logvar
+//@   is log != nil
+//
+// Trusted helpers: formatting and logging have no effect on the state the contracts talk about.
+//@ func (*service).cid
+//@   trusted
+//@   pure
+//@ extern github.com/mdzio/go-logging.Logger.Errorf
+//@   pure
+//@ extern github.com/mdzio/go-logging.Logger.Warningf
+//@   pure
+//@ extern github.com/mdzio/go-logging.Logger.Warning
+//@   pure
+//@ extern github.com/mdzio/go-logging.Logger.Debugf
+//@   pure
+//@ extern github.com/mdzio/go-logging.Logger.Tracef
+//@   pure
+
+// What a subscriber callback (another connection's - or this connection's own - onpub closure, or application code
+// on the client side) may change: it sends PUBLISH packets (ghost n3/id3, wfail), registers them in outgoing ack
+// queues, and toggles flag bits / assigns a packet id on the message it is given. It is a yield point: the rings
+// are subject to the caller's rely afterwards. Assumed (trusted_base): it sends no other packet type and does not
+// touch the incoming QoS 2 queue or the subscription ack queues of the calling connection.
+//@ modset Callback allfields(sessions.Ackqueue), allfields(sessions.AckMsg), allelems(sessions.AckMsg), allmaps(map[uint16]int64), heap("F.message.header.remlen"), heap("F.message.header.dirty"), heap("F.message.header.packetID"), allelems(byte), allfields(stat), heap("F.service.service.outtmp"), message.gPacketID, heap("GF.n3"), heap("GF.id3"), heap("GF.wfail"), heap("GF.ncb"), heap("GF.clock"), heap("GF.lockedAt"), heap("GF.mlockedAt"), heap("GF.readAt"), heap("GF.doneAt"), heap("GF.doneSeen"), heap("GF.bcast"), heap("GF.encn"), heap("GF.encarr"), heap("GF.encoff"), heap("GF.encAt"), heap("F.service.buffer.pwait"), heap("F.service.buffer.cwait"), allfields(sequence)
+
+// The topic store (what Subscribe/Unsubscribe/Retain may change).
+//@ modset TopicStore allfields(topics.rnode), allfields(topics.snode), allfields(topics.MemTopics)
+
+//@ extern functype github.com/mdzio/go-mqtt/service.OnPublishFunc
+//@   flag yield
+//@   requires msg != nil
+//@   ensures[ghostdef-cb] gfield(0, "ncb") == old(gfield(0, "ncb"))+1
+//@   modifies modset(Callback)
+
+// The connection's view of its outgoing ring (precondition of writeMessage, re-established by it).
+//@ define vdefOut(svc)
+//@   is !held(addr(svc.wmu)) && (svc.out != nil ==> vdefRingB(svc.out) && !held(ifaceval(svc.out.pcond.L, *sync.Mutex)) && !held(ifaceval(svc.out.ccond.L, *sync.Mutex)) && arr(svc.outtmp) != arr(svc.out.buf) && addr(svc.wmu) != ifaceval(svc.out.pcond.L, *sync.Mutex) && addr(svc.wmu) != ifaceval(svc.out.ccond.L, *sync.Mutex) && gfield(svc.out, "guard") == addr(svc.wmu))
+
+// onPublish hands a message on: to every subscriber the topic store returns, once each, in order, with the QoS the
+// store granted. Ghost: ndlv counts hand-overs per connection, lastdlv is the message object last handed on.
+//@ func (*service).onPublish
+//@   results err
+//@   requires vdefOut(p) && msg != nil && len(msg.mtypeflags) == 1 && p.topicsMgr != nil && p.topicsMgr.p != nil && arr(msg.mtypeflags) != arr(p.qoss) && p.out != nil && arr(p.qoss) != arr(p.out.buf)
+//@   rely modifies p.out.pseq.cursor, p.out.pseq.gate, p.out.cseq.cursor, p.out.done, p.out.pwait, elems(p.out.buf)
+//@   rely ensures vdefRing(p.out) && arr(p.outtmp) != arr(p.out.buf)
+//@   atcall functype github.com/mdzio/go-mqtt/service.OnPublishFunc requires[C01:qos] message.vspecQoSOf(msg.mtypeflags[0]) == p.qoss[rangeindex+1]
+//@   atcall functype github.com/mdzio/go-mqtt/service.OnPublishFunc assumes unchanged(p.qoss)
+//@   loop 1 invariant[qoss] arr(msg.mtypeflags) != arr(p.qoss) && p.out != nil && arr(p.qoss) != arr(p.out.buf) && len(p.qoss) == len(p.subs) && forall(0, len(p.qoss), func(i int) bool { return p.qoss[i] <= 2 })
+//@   loop 1 invariant vdefOut(p) && len(msg.mtypeflags) == 1 && gfield(0, "ncb") == old(gfield(0, "ncb"))+rangeindex+1 && rangeindex < len(p.subs) && heldsame()
+//@   ensures[inv] vdefOut(p)
+//@   ensures[ghostdef-dlv] gfield(p, "ndlv") == old(gfield(p, "ndlv"))+1 && gfield(p, "lastdlv") == msg
+//@   ensures[C01:fanout] err == nil ==> gfield(0, "ncb") == old(gfield(0, "ncb"))+len(p.subs)
+//@   modifies modset(Callback), p.subs, p.qoss, capelems(p.subs), modset(TopicStore), gfield(p, "ndlv"), gfield(p, "lastdlv")
